@@ -27,13 +27,13 @@ class Sym:
         elif w[0] == "graph":
             self.nops[self.ngraphs] = 0
             self.ngraphs += 1
-        elif w[0] in ("P", "I", "L", "M", "S", "N", "R"):
+        elif w[0] in ("P", "I", "L", "M", "S", "N", "R", "F"):
             g = int(w[1])
             oid = self.nops.get(g, 0)
             ids = [int(t[1:]) for t in out.split()[1:]]
             if w[0] == "L":
                 args = [int(t[1:]) for t in w[4:]]
-            elif w[0] in ("M", "S", "N"):
+            elif w[0] in ("M", "S", "N", "F"):
                 args = [int(t[1:]) for t in w[2:]]
             else:
                 args = []
@@ -127,8 +127,10 @@ def history(rng, maxlen=40, malformed=False):
                 if rng.random() < 0.2:
                     b = a
                 lines.append("M %d n%d n%d" % (g, a, b)); newnodes(g, 1)
-            elif k < 0.90:
+            elif k < 0.86:
                 lines.append("S %d n%d" % (g, rng.choice(have))); newnodes(g, 1)
+            elif k < 0.92:
+                lines.append("F %d n%d" % (g, rng.choice(have))); newnodes(g, 1)
             else:
                 lines.append("N %d n%d" % (g, rng.choice(have))); newnodes(g, 1)
         elif r < 0.64 and allnodes:
@@ -342,7 +344,7 @@ def run_family(chk, props, devices=("naive", "eigen"), tier=None):
             for i, l in enumerate(lines):
                 if impl[i] == "skipped":
                     break
-                chk.count(l, impl[i], impl[i].startswith("ok") and l.split()[0] in ("force", "backward", "gforce", "gbackward", "grad", "L", "M", "S", "N", "R", "P"))
+                chk.count(l, impl[i], impl[i].startswith("ok") and l.split()[0] in ("force", "backward", "gforce", "gbackward", "grad", "L", "M", "S", "N", "R", "P", "F"))
             if len(chk.samples) < 4 and chk.rng.random() < 0.05:
                 chk.samples.append({"family": "graph", "device": dev, "history": lines[:25], "impl_tail": impl[-6:]})
             # oracles on the implementation alone
